@@ -35,7 +35,14 @@ func (d *Driver) EstablishPeriodicSubscription(
 
 	m := d.buildPayload(establishElem)
 
-	r, err := d.sendRPC(m, &OperationOptions{})
+	// default operation options, i.e. the connection-wide timeout -- a zero value OperationOptions
+	// means a timeout of zero, which is "no timeout" (the maximum)
+	op, err := NewOperation()
+	if err != nil {
+		return nil, err
+	}
+
+	r, err := d.sendRPC(m, op)
 	if err != nil {
 		return nil, err
 	}
